@@ -80,7 +80,7 @@ def generate(seed, tier, batch):
     if backend == "gaussian" and n == 1:
         fams += ["ThermalLossChannel"]
     if backend == "gaussian":
-        fams += ["GaussianTransform", "Interferometer"]  # single-mode matrix operations (Decomposition.merge multiplies the matrices)
+        fams += ["GaussianTransform", "Interferometer", "GraphEmbed"]  # single-mode matrix operations (Decomposition.merge multiplies the matrices)
     nbar = rnd(r, 0, 0.5)
     # input state
     ops = []
@@ -102,6 +102,10 @@ def generate(seed, tier, batch):
             run_len = r.randint(1, 4)
             first = None
             for j in range(run_len):
+                if f == "GraphEmbed":
+                    ops.append({"op": "GraphEmbed", "aval": rnd(r, 0.1, 0.6), "m": [m]})
+                    k += 1
+                    continue
                 if f in ("GaussianTransform", "Interferometer"):
                     o = {"op": f, "useed": r.randrange(1 << 20) if not (f == "Interferometer" and r.random() < 0.25) else -1, "m": [m]}
                     if f == "Interferometer" and r.random() < 0.3:
@@ -111,7 +115,9 @@ def generate(seed, tier, batch):
                     continue
                 p = FAMILIES[f](r, s)
                 if f == "ThermalLossChannel":
-                    p[1] = nbar if r.random() < 0.8 else rnd(r, 0, 0.5)
+                    p[1] = nbar if r.random() < 0.7 else rnd(r, 0, 0.8)
+                if f in ("LossChannel", "ThermalLossChannel") and r.random() < 0.2:
+                    p[0] = 1.0  # a lossless stage (the neutral element of the family) next to a lossy one
                 if first is not None and len(p) > 1 and r.random() < 0.7:
                     p[1:] = first[1:]  # same trailing parameters => mergeable
                 if first is None:
@@ -130,6 +136,9 @@ def generate(seed, tier, batch):
                         inv["p"] = [-o["p"][0]] + o["p"][1:]
                     else:
                         inv["dag"] = not o.get("dag", False)
+                    if len(inv.get("p", [])) > 1 and r.random() < 0.3:
+                        # first parameters cancel exactly but the phase differs: NOT an identity (and not mergeable)
+                        inv["p"] = [inv["p"][0], rnd(r, 0, 6)] + list(inv["p"][2:])
                     ops.append(inv)
                     k += 1
         elif x < 0.68 and n > 1:
